@@ -61,9 +61,10 @@ CLAIMED['C08'] = dict(
     technique='API-level symbolic execution (symx + z3): concrete query text through the real extractors/parsers, symbolic reference datetime and symbolic N',
     text=SX + 'The public model code path (extract + parse, mirrored without its blanket except) runs on each relative expression (today, tomorrow, N days ago, '
          'in N weeks, next/this/last <weekday>, this/next/last week|month|year, now) with a symbolic reference; a discharged slice holds for every '
-         'reference datetime 1950-01-01..2090-12-31 at every minute. N is symbolic (1..5000) at unit level.',
+         'reference datetime 1950-01-01..2090-12-31 at every minute. N is symbolic (1..5000) at unit level. The same obligations run on the relative day / week / month / year phrases of es, fr, pt, de, it, nl, zh that the port supports '
+         '(harness/c08_phrases.json) through each culture\'s model, and on the Chinese special days at parser level.',
     note='Calendar classes are modelled (lib/symdate.py, validated against datetime every run); datedelta is an environment stub and month/year shifts from '
-         'the 29th..31st are reported ENV-DEPENDENT where its two plausible policies disagree. English only. ' + NOTE_COMMON,
+         'the 29th..31st are reported ENV-DEPENDENT where its two plausible policies disagree. Translations the port does not support (documented NotSupported in the Specs) are not claimed; F61 is recorded. ' + NOTE_COMMON,
     design='§5/C08')
 CLAIMED['C09'] = dict(
     technique='bounded symbolic execution (symx + z3) of the real date parser for year-less dates and bare weekdays, symbolic reference datetime',
